@@ -7,7 +7,7 @@ Every raw record whose source file belongs to the model (binding["files"]) must 
 site table regenerated from the current sources, to a bound site (-> its event code) or to an ignored
 site; anything else is emitted as code ffff (never accepted by a model): an unmodelled shared access.
 Events are `code actor obj val` in hex; actors and objects are renumbered by first appearance."""
-import json, sys, fnmatch
+import json, sys, os, fnmatch
 
 
 def load_sites(path):
@@ -59,8 +59,9 @@ def normalize(binding, sitetab, path, out, stats=None):
             stats[name] = stats.get(name, 0) + 1
 
 
-def static_check(binding, sites_list):
-    """compare the pinned per-function operation tables with the current source; returns list of differences"""
+def static_check(binding, sites_list, repo="/repo"):
+    """compare the pinned per-function operation tables (and pinned struct field orders = drop orders) with the
+    current source; returns list of differences"""
     cur = {}
     calls = set("call." + c for c in binding.get("pinned_calls", []))
     for s in sites_list:
@@ -72,6 +73,12 @@ def static_check(binding, sites_list):
         got = cur.get(fn)
         if got != exp:
             diffs.append({"fn": fn, "expected": exp, "found": got})
+    for key, exp in binding.get("pinned_structs", {}).items():
+        rel, name = key.split("|")
+        import siteaudit as _SA
+        got = _SA.struct_fields(os.path.join(repo, rel), name)
+        if got != exp:
+            diffs.append({"fn": "struct " + key + " (field = drop order)", "expected": exp, "found": got})
     return diffs
 
 
